@@ -59,6 +59,12 @@ pub fn check_is_match(prop: &str, case: &AstCase, ctx: &mut Ctx) -> Verdict {
     };
     let nontrivial_shape = m.node.size() >= 3 && (m.node.has_rep() || m.node.has_anchor() || m.node.has_backref() || m.node.any(&|n| matches!(n, Node::Alt(_))));
     let fl = facts_labels(facts);
+    ctx.obs.label(match m.node.size() {
+        0..=2 => "size:1-2",
+        3..=5 => "size:3-5",
+        6..=10 => "size:6-10",
+        _ => "size:11+",
+    });
     let mut known_hit: Option<String> = None;
     for (i, input) in m.inputs.iter().enumerate() {
         let io = &out.per_input[i];
@@ -99,6 +105,9 @@ pub fn check_is_match(prop: &str, case: &AstCase, ctx: &mut Ctx) -> Verdict {
             let mut regions = vec![];
             if io.cutoffs[0] > 0 || out.compile_cutoffs > 0 {
                 regions.push("force_progress_cutoff");
+            }
+            if m.node.backref_to_group_in_fixed_loop() {
+                regions.push("backref_to_group_in_fixed_length_loop");
             }
             if let Some(id) = ctx.known.attribute(prop, &regions, symptom) {
                 known_hit = Some(id);
